@@ -114,3 +114,28 @@ func VH_C16_timeout() {
 	vAssert(l.canChangeConfig(), "TO-config-actions-re-enabled")
 	vReach("end")
 }
+
+//verif:check C16,C17,C11 stubs=env,valuefile reach=stale-refused,accepted,end desc="a timeout-now request through Raft.onRequest, with any term: one that carries a term older than the node's (sent by a leader that has been deposed since, or delivered late) is refused and changes nothing - in particular it does not make the current leader or any follower of a newer term start an election; one of the current or a newer term makes a voter a candidate with the transfer permission" bounds="n<=3 nodes; node in any role; all 64-bit terms"
+func VH_C16_timeoutNow_term() {
+	r := vElectionNode(3)
+	r.state = State(vU8("state"))
+	vAssume(r.state == Follower || r.state == Candidate || r.state == Leader)
+	r.leader = vU64("leader")
+	vAssume(vImp(r.state == Leader, r.leader == r.nid))
+	nd, member := r.configs.Latest.Nodes[r.nid]
+	vAssume(member && nd.Voter)
+	req := &timeoutNowReq{req{vU64("req.term"), vU64("req.src")}}
+	vAssume(req.src != 0 && req.src != r.nid)
+	s0, l0, t0, v0 := r.state, r.leader, r.term, r.votedFor
+	res, err := r.onRequest(req, nil)
+	vAssert(err == nil, "no-error")
+	if req.term < t0 {
+		vReach("stale-refused")
+		vAssert(res != success, "TN-stale-timeout-now-refused")
+		vAssert(r.state == s0 && r.leader == l0 && r.term == t0 && r.votedFor == v0 && !r.cnd.transfer, "TN-stale-timeout-now-changes-nothing")
+	} else {
+		vReach("accepted")
+		vAssert(res == success && r.state == Candidate && r.cnd.transfer, "TN-voter-becomes-transfer-candidate")
+	}
+	vReach("end")
+}
